@@ -2,6 +2,7 @@ package props
 
 import (
 	"fmt"
+	"go/types"
 	"strings"
 
 	"bifrostverify/an"
@@ -182,6 +183,9 @@ func c40(c *an.Check) {
 			return ok && l == 32, "32-byte seed"
 		}},
 	}
+	// NILDEREF over the same functions: a (pointer|interface, error) result is dereferenced only behind err == nil
+	nND := c.NilDerefGuard("NILDEREF", "network decoder: (value, error) results dereferenced only when err==nil", fns, vtSafeRecv)
+	c.Note("NILDEREF examined %d (value, error) call sites in %d decoder functions", nND, len(fns))
 	c.Totality(an.PanicSpec{Construct: "network decoder totality", Funcs: fns, BCE: bce, Min: 70, Preconds: pre, Reviewed: map[string]string{
 		"peer.DecryptWithEd25519: bounds tPrivKeyCurve25519[:32]":                                                  "PrivateKeyToCurve25519 returns a 64-byte SHA-512 digest",
 		"peer.DecryptWithEd25519: assert to ed25519.PublicKey":                                                     "crypto/ed25519 documents PrivateKey.Public() to return ed25519.PublicKey",
@@ -206,4 +210,10 @@ func init() {
 		NotCov:      "third-party and standard-library decode internals (protobuf-go-lite, base58, s2, x509, asn1, pion, json) are the trusted base; resource use other than single-message allocation.",
 		Technique:   "static analysis: compiler bounds-check-elimination listing (prove pass) as the obligation set, discharged by SSA path facts / fixed-length provenance / reviewed table; must-pass gates for size limits",
 		Assumptions: commonAssumptions})
+}
+
+// vtSafeRecv: generated protobuf getters (GetX) and Size/Clone helpers check their receiver for nil.
+func vtSafeRecv(f *types.Func) bool {
+	n := f.Name()
+	return strings.HasPrefix(n, "Get") || n == "SizeVT" || n == "CloneVT" || n == "EqualVT"
 }
